@@ -73,8 +73,11 @@ def lookup (tbl : Table) (cls meth : Nat) : Option Entry :=
   tbl.find? (fun e => e.cls == cls && e.meth == meth)
 
 /-- true dependencies recomputed locally: own reads ∪ the callees' true dependencies -/
+def depsOf (tbl : Table) (cls c : Nat) : VarSet :=
+  ((lookup tbl cls c).map (·.trueDeps)).getD VarSet.empty
+
 def closeDeps (tbl : Table) (e : Entry) : VarSet :=
-  e.calls.foldl (fun acc c => acc.union (((lookup tbl e.cls c).map (·.trueDeps)).getD VarSet.empty)) e.reads
+  e.calls.foldl (fun acc c => acc.union (depsOf tbl e.cls c)) e.reads
 
 def closeWrites (tbl : Table) (e : Entry) : VarSet :=
   e.calls.foldl (fun acc c => acc.union (((lookup tbl e.cls c).map (·.writesT)).getD VarSet.empty)) e.writes
@@ -169,7 +172,7 @@ structure St where
   cache : Key → Option (Option Val)
   cell : Nat
   readOnly : Bool
-  frozen : Bool      -- array variables are non-writeable (set by `copy(read_only=True)`, lost by pickling)
+  frozen : Bool      -- array variables are non-writeable (set by `copy(read_only=True)`; `__setstate__` re-freezes read-only states)
 
 structure Heap where
   st : Nat → St
@@ -230,6 +233,25 @@ def store (cfg : Cfg) (s : St) (key : Key) (v : Val) (auxKeys : List Key) : St :
         some (some { v with key := k, aliasOf := none, callable := cfg.callableVal k.sys k.meth })
       else s.cache k }
 
+/-- the wrapped method itself: direct reads + nested calls -/
+def bodyM (cfg : Cfg) (call : Heap → Nat → Res) (e : Entry) (sid sys : Nat) (h : Heap) : Res :=
+  let s := h.st sid
+  let q := runCalls call h (Prov3.ofSet e.reads s.stamp) e.calls
+  ⟨q.1, ⟨⟨sys, e.meth⟩, q.2.1, (cfg.aliasRet sys e.meth).map s.arr, cfg.callableVal sys e.meth⟩, q.2.2⟩
+
+/-- the decorator wrapper (`cache_in_state` when `withAux = false`, else `cache_in_state_with_aux`) -/
+def wrapM (cfg : Cfg) (call : Heap → Nat → Res) (e : Entry) (sid sys : Nat) (h : Heap) : Res :=
+  let key : Key := ⟨sys, e.meth⟩
+  let keys := if e.withAux then key :: e.aux.map (Key.mk sys) else [key]
+  let h1 := register h sid keys e.declared
+  match (h1.st sid).cache key with
+  | some (some v) => ⟨h1, v, []⟩
+  | _ =>
+    let r := bodyM cfg call e sid sys h1
+    let nAux := if e.withAux then cfg.auxRet sys e.meth else 0
+    let auxKeys := (e.aux.take nAux).map (Key.mk sys)
+    ⟨setSt r.h sid (fun s => store cfg s key r.v auxKeys), r.v, r.tr ++ [key]⟩
+
 /-- A call `system.m(state)`; `fuel` bounds the nesting depth (callers pass `rank + 1`). -/
 def callM (tbl : Table) (cfg : Cfg) : Nat → Heap → Nat → Nat → Nat → Res
   | 0, h, _, sys, m => ⟨h, Val.bad ⟨sys, m⟩, []⟩
@@ -237,21 +259,8 @@ def callM (tbl : Table) (cfg : Cfg) : Nat → Heap → Nat → Nat → Nat → R
     match lookup tbl (cfg.clsOf sys) m with
     | none => ⟨h, Val.bad ⟨sys, m⟩, []⟩
     | some e =>
-      let key : Key := ⟨sys, m⟩
-      let body (h : Heap) : Res :=
-        let s := h.st sid
-        let q := runCalls (fun h c => callM tbl cfg fuel h sid sys c) h (Prov3.ofSet e.reads s.stamp) e.calls
-        ⟨q.1, ⟨key, q.2.1, (cfg.aliasRet sys m).map s.arr, cfg.callableVal sys m⟩, q.2.2⟩
-      if !e.cached then body h else
-        let keys := if e.withAux then key :: e.aux.map (Key.mk sys) else [key]
-        let h1 := register h sid keys e.declared
-        match (h1.st sid).cache key with
-        | some (some v) => ⟨h1, v, []⟩
-        | _ =>
-          let r := body h1
-          let nAux := if e.withAux then cfg.auxRet sys m else 0
-          let auxKeys := (e.aux.take nAux).map (Key.mk sys)
-          ⟨setSt r.h sid (fun s => store cfg s key r.v auxKeys), r.v, r.tr ++ [key]⟩
+      if e.cached then wrapM cfg (fun h c => callM tbl cfg fuel h sid sys c) e sid sys h
+      else bodyM cfg (fun h c => callM tbl cfg fuel h sid sys c) e sid sys h
 
 def callTop (tbl : Table) (cfg : Cfg) (h : Heap) (sid sys m : Nat) : Res :=
   match lookup tbl (cfg.clsOf sys) m with
@@ -326,7 +335,7 @@ def step (tbl : Table) (cfg : Cfg) (h : Heap) : Op → Heap × Out
       let a := h.nextArr
       let newArr : Var → Nat := fun | .pos => a | .mom => a + 1 | .dir => a + 2
       let s' : St :=
-        { s with arr := newArr, cell := h.nCells, frozen := false,
+        { s with arr := newArr, cell := h.nCells, frozen := s.readOnly,
                  cache := fun k => match s.cache k with
                    | some (some v) => if v.callable then none
                        else some (some { v with aliasOf := v.aliasOf.bind (remapAlias s.arr newArr) })
